@@ -1,6 +1,6 @@
 (* C10 — unknown node or child triggers one presentation request per episode (2.x). *)
 From Coq Require Import List NArith ZArith String.
-From AMS Require Import Models GatewayFacts GatewayInv GatewaySteps.
+From AMS Require Import Models GatewayFacts GatewayInv GatewaySteps GatewayTrace.
 Import ListNotations.
 Local Open Scope Z_scope.
 
@@ -54,6 +54,37 @@ Proof.
   - apply (dpop_other key_eqb key_eqb_spec). exact H.
 Qed.
 Print Assumptions C10_independent.
+
+(* with protocols before 2.0 no presentation request is ever written — whatever
+   line arrives, in whatever state — and no marker changes *)
+Theorem C10_pre20 :
+  forall bat vlt now line s,
+    Inv vlt (s_w s) -> (w_proto (s_w s) < 2)%nat ->
+    w_set (s_w (snd (listen_step bat vlt now line s))) = w_set (s_w s)
+    /\ w_internal (s_w (snd (listen_step bat vlt now line s))) = w_internal (s_w s)
+    /\ exists new, s_log (snd (listen_step bat vlt now line s)) = new ++ s_log s /\ Forall notreq new.
+Proof. exact pre20_quiet. Qed.
+Print Assumptions C10_pre20.
+
+(* under any protocol: a presentation request is written only if the generated tables
+   put the missing-node/child wrapper on the path of this message (so e.g. config,
+   time, id, log, gateway-ready, version messages never cause one); a rejected line never does *)
+Theorem C10_request_only_from_wrapper :
+  forall bat vlt now line s m,
+    Inv vlt (s_w s) -> decode (proto_of (s_w s)) line = DecOk m ->
+    a_request (listen_allow (w_proto (s_w s)) m) = false ->
+    exists new, s_log (snd (listen_step bat vlt now line s)) = new ++ s_log s /\ Forall notreq new.
+Proof. exact request_only_from_wrapper. Qed.
+Print Assumptions C10_request_only_from_wrapper.
+
+Theorem C10_rejected_line_is_silent :
+  forall bat vlt now line s,
+    Inv vlt (s_w s) -> (forall m, decode (proto_of (s_w s)) line <> DecOk m) ->
+    w_set (s_w (snd (listen_step bat vlt now line s))) = w_set (s_w s)
+    /\ w_internal (s_w (snd (listen_step bat vlt now line s))) = w_internal (s_w s)
+    /\ exists new, s_log (snd (listen_step bat vlt now line s)) = new ++ s_log s /\ Forall notreq new.
+Proof. exact rejected_line_keeps_everything. Qed.
+Print Assumptions C10_rejected_line_is_silent.
 
 (* which handlers carry the wrapper, from the generated tables: none before 2.0;
    from 2.0 on every handler that can raise a missing-node/child error *)
